@@ -49,7 +49,7 @@ PROPS = {
                              "at-call:parked", "at-call:spinning", "at-call:busy"],
         "assumptions": _A09,
         "runs": {
-            "quick": [{"config": "plain", "shards": 16}, {"config": "tsan", "shards": 16, "args": {"n": 208, "nmax": 9}}],
+            "quick": [{"config": "plain", "shards": 16, "args": {"n": 1200}}, {"config": "tsan", "shards": 16, "args": {"n": 160, "nmax": 9}}],
             "thorough": [{"config": "plain", "shards": 16, "seeds": 2}, {"config": "tsan", "shards": 16, "args": {"n": 2400, "nmax": 12}}],
         },
     },
